@@ -27,6 +27,15 @@ import (
 
 // realSys builds a runner with the REAL task runner, executor and file output store, wired exactly like app.go does
 func realSys(specs []gen.PipeSpec, workDir string, killTimeout time.Duration) (*core.Sys, *taskctl.FileOutputStore, string, error) {
+	if killTimeout > 0 {
+		return realSysKT(specs, workDir, &killTimeout)
+	}
+	return realSysKT(specs, workDir, nil)
+}
+
+// realSysKT: kt == nil leaves the task runner's default kill timeout, otherwise *kt is configured as it is (0 and
+// negative values mean "no grace period")
+func realSysKT(specs []gen.PipeSpec, workDir string, kt *time.Duration) (*core.Sys, *taskctl.FileOutputStore, string, error) {
 	logRoot := filepath.Join(workDir, "logs")
 	out, err := taskctl.NewOutputStore(logRoot)
 	if err != nil {
@@ -38,8 +47,8 @@ func realSys(specs []gen.PipeSpec, workDir string, killTimeout time.Duration) (*
 	}
 	sys.MakeRunner = func(j *prunner.PipelineJob) taskctl.Runner {
 		opts := []taskctl.Opts{taskctl.WithEnv(variables.FromMap(j.Env))}
-		if killTimeout > 0 {
-			opts = append(opts, taskctl.WithKillTimeout(killTimeout))
+		if kt != nil {
+			opts = append(opts, taskctl.WithKillTimeout(*kt))
 		}
 		tr, _ := taskctl.NewTaskRunner(out, opts...)
 		tr.Stdout = io.Discard
@@ -122,6 +131,7 @@ type outTask struct {
 	allow  bool
 	slow   bool
 	reopen int // index of the command after which a command re-opens /dev/stdout and /dev/stderr by path (-1: none)
+	merge  []int // per command: 0 separate streams, 1 `2>&1`, 2 `1>&2` (one stream carries both, in the order written)
 }
 
 // RunOutputCase runs real tasks that write known byte streams and compares what the log store and the log API return
@@ -173,7 +183,12 @@ func RunOutputCase(seed int64, o OutputOpts) *HistResult {
 				ot.plans = append(ot.plans, pl)
 				a := pl.Args()
 				a[2] = "{{.jobtag}}" // the job tag is a job variable rendered into the script
-				script = append(script, shQuote(o.Exe)+" "+strings.Join(a, " "))
+				mg := 0
+				if r.Intn(4) == 0 {
+					mg = 1 + r.Intn(2)
+				}
+				ot.merge = append(ot.merge, mg)
+				script = append(script, shQuote(o.Exe)+" "+strings.Join(a, " ")+[]string{"", " 2>&1", " 1>&2"}[mg])
 				if c == 0 && ot.reopen == 0 {
 					// a child that opens its standard streams by path must append to the captured output like any other writer
 					script = append(script, `sh -c 'printf "[PATH-%s]" {{.jobtag}} > /dev/stdout; printf "[PATHERR-%s]" {{.jobtag}} >> /dev/stderr'`)
@@ -266,6 +281,15 @@ func RunOutputCase(seed int64, o OutputOpts) *HistResult {
 			for ci, pl := range ot.plans {
 				pl.Tag = j.tag
 				so, se, exit := pl.Expected()
+				if ci < len(ot.merge) && ot.merge[ci] != 0 {
+					var all []byte
+					all, exit = pl.ExpectedMerged()
+					so, se = all, nil
+					if ot.merge[ci] == 2 {
+						so, se = nil, all
+					}
+					res.sit("C19", fmt.Sprintf("streams merged by redirection %d chunksize<=%d", ot.merge[ci], pl.MaxChunk))
+				}
 				expOut = append(expOut, so...)
 				expErr = append(expErr, se...)
 				if exit != 0 && !ot.allow {
@@ -502,7 +526,7 @@ func RunEnvCase(seed int64, exe, workDir string) *HistResult {
 			nCmd := 1 + r.Intn(3)
 			var script []string
 			for c := 0; c < nCmd; c++ {
-				script = append(script, shQuote(exe)+" dumpenv {{.tv}} cmd"+fmt.Sprint(c)+" {{.num}} {{.big}} {{.small}} {{.flag}}")
+				script = append(script, shQuote(exe)+" dumpenv {{.tv}} cmd"+fmt.Sprint(c)+" {{.num}} {{.big}} {{.small}} {{.flag}} {{.PXV_A}} {{.PXV_TASKONLY}}")
 			}
 			// the interpreter's own view of a variable
 			script = append(script, `printf 'SH[%s]' "$PXV_A"`)
@@ -537,6 +561,10 @@ func RunEnvCase(seed int64, exe, workDir string) *HistResult {
 		tv := fmt.Sprintf("tv-%d-%d", i, r.Intn(1e6))
 		// variables of Go types as an embedding application passes them: they must be rendered as they are
 		vars := map[string]interface{}{"tv": tv, "num": 1000000 + i, "big": int64(9007199254740993), "small": int8(7), "flag": true}
+		// job variables whose names are also environment variable names (pipeline level / task level): the script is
+		// rendered with the job's variables, the environment keeps the environment's values
+		vars["PXV_A"] = fmt.Sprintf("jobvar-a-%d", i)
+		vars["PXV_TASKONLY"] = fmt.Sprintf("jobvar-t-%d", i)
 		opt := ""
 		if i%2 == 0 {
 			opt = fmt.Sprintf("opt-%d-%d", i, r.Intn(1e6))
@@ -551,7 +579,7 @@ func RunEnvCase(seed int64, exe, workDir string) *HistResult {
 	}
 	// a job that passes the reserved variable name, naming the first job: it must not run anything nor touch that job
 	victim := jobs[0]
-	evilID, evilCls := sys.Schedule(0, victim.pipe, map[string]interface{}{"tv": "evil", "opt": "evil", "num": 1, "big": 2, "small": 3, "flag": false, "__jobID": victim.id}, "evil")
+	evilID, evilCls := sys.Schedule(0, victim.pipe, map[string]interface{}{"tv": "evil", "opt": "evil", "num": 1, "big": 2, "small": 3, "flag": false, "PXV_A": "evil", "PXV_TASKONLY": "evil", "__jobID": victim.id}, "evil")
 	var ids []string
 	for _, j := range jobs {
 		ids = append(ids, j.id)
@@ -619,6 +647,9 @@ func RunEnvCase(seed int64, exe, workDir string) *HistResult {
 				res.Evaluations["C18"]++
 				if want := []string{fmt.Sprint(1000000 + j.idx), "9007199254740993", "7", "true"}; len(d.Args) >= 6 && !eqStr(d.Args[2:6], want) {
 					find([]string{"C18"}, "C18:script-rendered-with-altered-variable-values", "job %s task %s command %d: typed job variables were rendered as %v, expected %v", j.tv, te.name, ci, d.Args[2:6], want)
+				}
+				if want := []string{fmt.Sprintf("jobvar-a-%d", j.idx), fmt.Sprintf("jobvar-t-%d", j.idx)}; len(d.Args) < 8 || !eqStr(d.Args[6:8], want) {
+					find([]string{"C18"}, "C18:job-variable-shadowed-by-environment-name", "job %s task %s command %d: job variables that share their names with environment variables (pipeline level / task level) were rendered as %v, expected the job's own values %v", j.tv, te.name, ci, d.Args[min(6, len(d.Args)):], want)
 				}
 				if len(d.Args) < 2 || d.Args[0] != j.tv {
 					find([]string{"C18"}, "C18:script-rendered-with-wrong-variables", "job %s task %s command %d was rendered with arguments %v", j.tv, te.name, ci, d.Args)
